@@ -1146,6 +1146,15 @@ theorem inv_workerPut {s : State} {cmd : Cmd} {id hash : Nat} {w : Int} {k v : N
       obtain ⟨f1, f2, f3, f4, f5, f6, f7⟩ := foldl_applyEvict r.evicted { s with adm := r.adm }
       dsimp only at h
       split at h
+      · -- the worker panicked in `is_space_available_for`: it dies with the evictions made so far, nothing was added
+        rename_i hov
+        simp only [Except.ok.injEq, Prod.mk.injEq] at h
+        obtain ⟨rfl, _⟩ := h
+        refine inv_put_final hc hp hcid hw sp hk (s' := Exec.kill (.panicked _ _)) f2 f3 f4 ?_
+          (Or.inr (Or.inr ⟨rfl, f1⟩))
+        simp only [pendingCmds, Exec.kill, f7, List.map_nil, List.nil_append]
+        exact PLe.right _ _
+      split at h
       · rename_i hacc
         split at h
         · simp only [Except.ok.injEq, Prod.mk.injEq] at h
@@ -1660,11 +1669,12 @@ theorem noGrow_sweepStep {s s' : State} {out : Out} (h : Inv s) (hs : sweepStep 
 /-- the bound an executed put obeys, relative to the state `s` it started from -/
 def Exec.putBound (s : State) : Exec → Prop
   | .done s1 st _ _ _ => (st = .accepted → s1.adm.used ≤ s1.adm.max) ∧ (st ≠ .accepted → s1.adm.used ≤ s.adm.used)
-  | .panicked s1 _ => s1.adm.used ≤ s1.adm.max
+  | .panicked s1 _ => s1.adm.used ≤ s1.adm.max ∨ s1.adm.used ≤ s.adm.used
 
 /-- What executing a put does to the total: an accepted put ends at or below the limit (whatever the total
     was before), any other outcome does not raise the total. A panic after admission (`timeOverflow`) leaves
-    the total after that admission, which is within the limit. -/
+    the total after that admission, which is within the limit; a panic INSIDE admission (`weightOverflow` in
+    `is_space_available_for`) has added nothing and leaves the total where the evictions made so far brought it. -/
 theorem workerPut_effect {s : State} {id hash : Nat} {w : Int} {k v : Nat} {ttl : Option Nat}
     {o o' : Oracle} {ex : Exec} (hc : Core s) (hid : s.adm.kw.get? id = none)
     (h : workerPut s id hash w k v ttl o = .ok (ex, o')) :
@@ -1681,6 +1691,15 @@ theorem workerPut_effect {s : State} {id hash : Nat} {w : Int} {k v : Nat} {ttl 
       obtain ⟨f1, f2, f3, f4, f5, f6, f7⟩ := foldl_applyEvict r.evicted { s with adm := r.adm }
       dsimp only at h
       split at h
+      · rename_i hov
+        have hacc : r.status ≠ .accepted := by
+          intro hacc; have := (sp.ovf hov).1; rw [hacc] at this; cases this
+        simp only [Except.ok.injEq, Prod.mk.injEq] at h
+        obtain ⟨rfl, _⟩ := h
+        refine ⟨f4, ?_, Or.inr ?_⟩
+        · simp only [Exec.kill, f2]; exact sp.max
+        · simp only [f2]; exact sp.used_le hc.positive hacc
+      split at h
       · rename_i hacc
         have hb := sp.bound hacc
         split at h
@@ -1692,7 +1711,7 @@ theorem workerPut_effect {s : State} {id hash : Nat} {w : Int} {k v : Nat} {ttl 
         · split at h
           · simp only [Except.ok.injEq, Prod.mk.injEq] at h
             obtain ⟨rfl, _⟩ := h
-            refine ⟨f4, ?_, ?_⟩
+            refine ⟨f4, ?_, Or.inl ?_⟩
             · simp only [Exec.kill, f2]; exact sp.max
             · simp only [f2]; exact hb
           · simp only [Except.ok.injEq, Prod.mk.injEq] at h
@@ -1783,7 +1802,9 @@ theorem workerStep_effect {s s' : State} {o o' : Oracle} {out : Out} (h : Inv s)
         | panicked s1 p =>
           simp only [Except.ok.injEq, Prod.mk.injEq] at hs
           obtain ⟨rfl, rfl, _⟩ := hs
-          exact ⟨e1, e2, Or.inl ⟨e3, Or.inr ⟨p, rfl⟩⟩⟩
+          rcases e3 with e3 | e3
+          · exact ⟨e1, e2, Or.inl ⟨e3, Or.inr ⟨p, rfl⟩⟩⟩
+          · exact ⟨e1, e2, Or.inr ⟨by simp [Out.acceptedPut], Or.inl e3⟩⟩
       · cases hs
     · split at hs
       · rename_i r hr
@@ -1801,7 +1822,9 @@ theorem workerStep_effect {s s' : State} {o o' : Oracle} {out : Out} (h : Inv s)
         | panicked s1 p =>
           simp only [Except.ok.injEq, Prod.mk.injEq] at hs
           obtain ⟨rfl, rfl, _⟩ := hs
-          exact ⟨e1, e2, Or.inl ⟨e3, Or.inr ⟨p, rfl⟩⟩⟩
+          rcases e3 with e3 | e3
+          · exact ⟨e1, e2, Or.inl ⟨e3, Or.inr ⟨p, rfl⟩⟩⟩
+          · exact ⟨e1, e2, Or.inr ⟨by simp [Out.acceptedPut], Or.inl e3⟩⟩
       · cases hs
     · rename_i id w
       obtain ⟨e1, e2, e3⟩ := workerUpdateWeight_effect { s with queue := q } id w
